@@ -5,6 +5,8 @@ import (
 	"fmt"
 	"strings"
 
+	"gopkg.in/yaml.v3"
+
 	"github.com/jhalter/mobius/verifh/explore"
 	"github.com/jhalter/mobius/verifh/vrt"
 )
@@ -62,3 +64,5 @@ func allBut(is ...int) [8]byte {
 	}
 	return b
 }
+
+func yamlMarshal(v interface{}) ([]byte, error) { return yaml.Marshal(v) }
